@@ -1012,3 +1012,9 @@ LEVEL_NOTE = ("Exact arithmetic over Q; restriction under linear constraints and
               "(C07_multistart_best_successful; the literal 'first start' fallback is refuted for a NaN-valued successful first run); harness and case printer trusted; no axioms")
 TECHNIQUE = "Coq proof (invariants, induction) on executable model + in-Coq differential correspondence with scripted NumPy draws"
 DESIGN_REF = "DESIGN.md section 7, C07"
+
+# --- second build round: additions to the claimed level
+LEVEL_TEXT += ("; the multistart clause in full (per-start outcome lists, first successful end point of maximal value, fallback); the inequality handed to "
+               "SLSQP is the user constraint tightened by 1e-8 |rhs| with the weight vector as Jacobian (Model/ScipyCons.v, exact correspondence on "
+               "get_constraints_for_scipy)")
+LEVEL_NOTE += "; SLSQP itself is a contract (its accuracy acc = ftol), see DESIGN 11.5"
